@@ -262,11 +262,21 @@ def _column_entry(toks, src):
         elif c.words('NOT', 'NULL'):
             flag = 'not_null'
         elif c.word('DEFAULT'):
-            rest = c.t[c.i:]
-            if not rest:
-                raise DDLError(f'column {name!r}: DEFAULT without a value')
-            col['default'] = src[rest[0].start:rest[-1].end]
-            break
+            if col['default'] is not None:
+                raise DDLError(f'column {name!r}: DEFAULT stated twice')
+            rest, depth = [], 0
+            while not c.eof():
+                t = c.peek()
+                if t.kind == 'punct' and t.text == '(':
+                    depth += 1
+                elif t.kind == 'punct' and t.text == ')':
+                    depth -= 1
+                elif depth == 0 and t.kind == 'word' and t.text.upper() in ('PRIMARY', 'AUTOINCREMENT', 'UNIQUE', 'NOT'):
+                    break
+                rest.append(c.next())
+            # an empty-string default is emitted as a bare DEFAULT keyword with nothing after it
+            col['default'] = src[rest[0].start:rest[-1].end] if rest else ''
+            continue
         else:
             raise DDLError(f'column {name!r}: unexpected {c.context()!r}')
         if col[flag]:
@@ -294,10 +304,10 @@ def _create_table(c: _Cur, src, comments):
         if first.kind == 'word' and first.text.upper() == 'PRIMARY':
             cc = _Cur(e, src)
             cc.expect_words('PRIMARY', 'KEY')
-            cols = cc.ident_list()
+            subs = _index_subjects(cc, src)
             if not cc.eof():
                 raise DDLError('junk after PRIMARY KEY clause')
-            st['pks'].append({'cols': cols, 'comments': ec})
+            st['pks'].append({'subjects': subs, 'cols': [x[1] for x in subs if x[0] == 'col'], 'comments': ec})
         elif first.kind == 'word' and first.text.upper() in ('CONSTRAINT', 'FOREIGN'):
             cc = _Cur(e, src)
             cname = None
